@@ -9,7 +9,14 @@
 //            t<x>  push(const T&) of an element whose copy constructor throws        o  try_pop
 //            x     try_pop into an element whose (move) assignment throws
 //       res: S / F for pushes, S:<v> / F for pops, W if the status was never set
-// Element type: int priority + a flag that makes copying throw; moves are noexcept (so vector growth moves).
+//   An element <x> is `<key>:<id>` or `<n>` (key = id = n).  The queue's comparator sees only the key
+//   (`compare(a, b) = a.key < b.key`): distinct ids with equal keys are ties of the comparator; outputs show ids.
+//   `heapify`/`reheap`/`batch` use tbb::concurrent_priority_queue<Elem> (std::less<Elem>);
+//   `rheapify`/`rreheap`/`rbatch` use tbb::concurrent_priority_queue<Elem, KeyGreater> (a user-supplied Compare:
+//   a min-queue on the keys; the check mirrors the keys for the model).
+//   `abatch <k> …` uses a queue whose allocator throws std::bad_alloc at the k-th allocation made while the FIRST batch
+//   is handled (the vector is shrunk to capacity == size first): an allocation failure inside the handler.
+// Element type: key + id + a flag that makes copying throw; moves are noexcept (so vector growth moves).
 #include <oneapi/tbb/concurrent_priority_queue.h>
 #include <cstdio>
 #include <cstdlib>
@@ -23,15 +30,34 @@
 struct CopyBomb {};
 struct AssignBomb {};
 struct Elem {
-    long v; bool bomb; bool abomb = false;       // abomb: assigning INTO this object throws (op `x`)
-    Elem(long v_ = -1, bool b = false) : v(v_), bomb(b) {}
-    Elem(const Elem& o) : v(o.v), bomb(o.bomb) { if (o.bomb) throw CopyBomb(); }
-    Elem(Elem&& o) noexcept : v(o.v), bomb(o.bomb) {}
-    Elem& operator=(const Elem& o) { if (abomb) throw AssignBomb(); if (o.bomb) throw CopyBomb(); v = o.v; bomb = o.bomb; return *this; }
-    Elem& operator=(Elem&& o) { if (abomb) throw AssignBomb(); v = o.v; bomb = o.bomb; return *this; }
-    friend bool operator<(const Elem& a, const Elem& b) { return a.v < b.v; }
+    long key; long v; bool bomb; bool abomb = false;       // abomb: assigning INTO this object throws (op `x`)
+    Elem(long k_ = -1, long v_ = -1, bool b = false) : key(k_), v(v_), bomb(b) {}
+    Elem(const Elem& o) : key(o.key), v(o.v), bomb(o.bomb) { if (o.bomb) throw CopyBomb(); }
+    Elem(Elem&& o) noexcept : key(o.key), v(o.v), bomb(o.bomb) {}
+    Elem& operator=(const Elem& o) { if (abomb) throw AssignBomb(); if (o.bomb) throw CopyBomb(); key = o.key; v = o.v; bomb = o.bomb; return *this; }
+    Elem& operator=(Elem&& o) { if (abomb) throw AssignBomb(); key = o.key; v = o.v; bomb = o.bomb; return *this; }
+    friend bool operator<(const Elem& a, const Elem& b) { return a.key < b.key; }
 };
-using Q = tbb::concurrent_priority_queue<Elem>;
+struct KeyGreater { bool operator()(const Elem& a, const Elem& b) const { return a.key > b.key; } };
+// an allocator whose k-th allocation (counted from arming) throws std::bad_alloc: the `abatch` command arms it right
+// before handle_operations, so the reallocation inside some push_back of the batch fails inside the handler
+static long g_alloc_countdown = -1;      // -1: disarmed
+template <class T> struct FaultAlloc {
+    using value_type = T;
+    FaultAlloc() = default;
+    template <class U> FaultAlloc(const FaultAlloc<U>&) {}
+    T* allocate(std::size_t n) {
+        if (g_alloc_countdown == 0) { g_alloc_countdown = -1; throw std::bad_alloc(); }
+        if (g_alloc_countdown > 0) --g_alloc_countdown;
+        return std::allocator<T>().allocate(n);
+    }
+    void deallocate(T* p, std::size_t n) { std::allocator<T>().deallocate(p, n); }
+    template <class U> bool operator==(const FaultAlloc<U>&) const { return true; }
+    template <class U> bool operator!=(const FaultAlloc<U>&) const { return false; }
+};
+using QL = tbb::concurrent_priority_queue<Elem>;
+using QG = tbb::concurrent_priority_queue<Elem, KeyGreater>;
+using QA = tbb::concurrent_priority_queue<Elem, std::less<Elem>, FaultAlloc<Elem>>;
 
 // a repaired tree may hand the exception of a pop's element assignment to the pop's caller through the operation
 // (member `eptr`); the pinned tree has no such member
@@ -45,31 +71,34 @@ static bool parse_nat(const std::string& s, long& out) {
     return true;
 }
 
-static std::string show(Q& q) {
+// <key>:<id> or <n>
+static bool parse_elem(const std::string& s, long& key, long& id) {
+    size_t c = s.find(':');
+    if (c == std::string::npos) { if (!parse_nat(s, id)) return false; key = id; return true; }
+    return parse_nat(s.substr(0, c), key) && parse_nat(s.substr(c + 1), id);
+}
+
+template <class Q> static std::string show(Q& q) {
     std::string r = std::to_string(q.mark) + " |";
     for (auto& e : q.data) r += " " + std::to_string(e.v);
     if (q.my_size.load() != q.data.size()) r += " my_size=" + std::to_string(q.my_size.load()) + "!";
     return r;
 }
 
-static void set_state(Q& q, const std::vector<long>& d, size_t mark) {
+typedef std::vector<std::pair<long, long>> Elems;   // (key, id)
+
+template <class Q> static void set_state(Q& q, const Elems& d, size_t mark) {
     q.data.clear();
-    for (long x : d) q.data.emplace_back(x, false);
+    for (auto& x : d) q.data.emplace_back(x.first, x.second, false);
     q.mark = mark;
     q.my_size.store(d.size());
 }
 
-int main() {
-    std::string line;
-    while (std::getline(std::cin, line)) {
-        std::istringstream is(line);
-        std::vector<std::string> ws;
-        for (std::string w; is >> w;) ws.push_back(w);
-        if (ws.empty()) continue;
+template <class Q> static std::string handle_line(std::vector<std::string>& ws, long fail_alloc = -1) {
         std::string out = "bad-op";
         if ((ws[0] == "heapify" || ws[0] == "reheap") && ws.size() >= 2) {
-            long m; std::vector<long> d; bool ok = parse_nat(ws[1], m);
-            for (size_t i = 2; ok && i < ws.size(); ++i) { long x; ok = parse_nat(ws[i], x); d.push_back(x); }
+            long m; Elems d; bool ok = parse_nat(ws[1], m);
+            for (size_t i = 2; ok && i < ws.size(); ++i) { long k, x; ok = parse_elem(ws[i], k, x); d.push_back({k, x}); }
             if (ok && (size_t)m <= d.size() && (ws[0] == "heapify" || !d.empty())) {
                 Q q; set_state(q, d, (size_t)m);
                 if (ws[0] == "heapify") q.heapify(); else { q.reheap(); q.my_size.store(q.data.size()); }
@@ -79,9 +108,9 @@ int main() {
             // batch <d...> | <ops> ; <ops> ; ...   (several batches handled one after the other on the same queue)
             size_t bar = 1; while (bar < ws.size() && ws[bar] != "|") ++bar;
             bool ok = bar < ws.size();
-            std::vector<long> d;
-            for (size_t i = 1; ok && i < bar; ++i) { long x; ok = parse_nat(ws[i], x); d.push_back(x); }
-            struct OpRec { char kind; Elem arg; Elem outv; std::unique_ptr<Q::cpq_operation> op; };
+            Elems d;
+            for (size_t i = 1; ok && i < bar; ++i) { long k, x; ok = parse_elem(ws[i], k, x); d.push_back({k, x}); }
+            struct OpRec { char kind; Elem arg; Elem outv; std::unique_ptr<typename Q::cpq_operation> op; };
             std::vector<std::vector<std::unique_ptr<OpRec>>> batches(1);
             for (size_t i = bar + 1; ok && i < ws.size(); ++i) {
                 const std::string& w = ws[i];
@@ -89,25 +118,28 @@ int main() {
                 auto r = std::make_unique<OpRec>();
                 r->kind = w[0];
                 if (w == "o" || w == "x") {
-                    r->outv = Elem(-7, false);
+                    r->outv = Elem(-7, -7, false);
                     r->outv.abomb = (w == "x");
-                    r->op.reset(new Q::cpq_operation(r->outv, Q::POP_OP));
+                    r->op.reset(new typename Q::cpq_operation(r->outv, Q::POP_OP));
                 } else if ((w[0] == 'p' || w[0] == 'm' || w[0] == 't') && w.size() > 1) {
-                    long x; ok = parse_nat(w.substr(1), x);
-                    r->arg = Elem(x, w[0] == 't');
-                    r->op.reset(new Q::cpq_operation(r->arg, w[0] == 'm' ? Q::PUSH_RVALUE_OP : Q::PUSH_OP));
+                    long k = 0, x = 0; ok = parse_elem(w.substr(1), k, x);
+                    r->arg = Elem(k, x, w[0] == 't');
+                    r->op.reset(new typename Q::cpq_operation(r->arg, w[0] == 'm' ? Q::PUSH_RVALUE_OP : Q::PUSH_OP));
                 } else ok = false;
                 batches.back().push_back(std::move(r));
             }
             if (ok) {
                 Q q; set_state(q, d, d.size());
+                if (fail_alloc >= 0) q.data.shrink_to_fit();      // capacity == size: the growth policy decides which push reallocates
                 out.clear();
                 for (size_t b = 0; b < batches.size(); ++b) {
                     auto& ops = batches[b];
                     for (size_t i = 0; i + 1 < ops.size(); ++i) ops[i]->op->next.store(ops[i + 1]->op.get());
                     bool exc = false;
+                    if (b == 0 && fail_alloc >= 0) g_alloc_countdown = fail_alloc;
                     try { q.handle_operations(ops.empty() ? nullptr : ops[0]->op.get()); }
                     catch (...) { exc = true; }
+                    g_alloc_countdown = -1;
                     if (b) out += " ; ";
                     for (auto& r : ops) {
                         uintptr_t st = r->op->status.load();
@@ -121,6 +153,29 @@ int main() {
                 }
             }
         }
+        return out;
+}
+
+int main() {
+    std::string line;
+    while (std::getline(std::cin, line)) {
+        std::istringstream is(line);
+        std::vector<std::string> ws;
+        for (std::string w; is >> w;) ws.push_back(w);
+        if (ws.empty()) continue;
+        std::string out;
+        if (ws[0] == "rheapify" || ws[0] == "rreheap" || ws[0] == "rbatch") {
+            ws[0] = ws[0].substr(1);
+            out = handle_line<QG>(ws);
+        } else if (ws[0] == "abatch" && ws.size() >= 2) {
+            // abatch <k> <d...> | <ops> ; ...   the k-th allocation (0-based) during the FIRST batch throws std::bad_alloc
+            long k;
+            if (parse_nat(ws[1], k)) {
+                ws.erase(ws.begin() + 1);
+                ws[0] = "batch";
+                out = handle_line<QA>(ws, k);
+            } else out = "bad-op";
+        } else out = handle_line<QL>(ws);
         puts(out.c_str());
         fflush(stdout);
     }
